@@ -34,15 +34,37 @@ def visible(log, names):
     return out
 
 
+NAMES = ["alpha", "bravo", "charlie", "delta", "echo", "foxtrot", "golf"]
+
+
+def free_scenario(ctx):
+    """Off the exact lattice: string class ids, decimal weights / sizes / instants (floating-point sums whose rounding
+    depends on the order of summation), stamps that tie up to rounding."""
+    rng = ctx.rng
+    nc = rng.randint(3, 6)
+    nf = rng.randint(nc, nc + 2)
+    dec = [0.1, 0.2, 0.3, 0.5, 0.7, 1.1, 0.6, 0.4, 1.0]
+    names = rng.sample(NAMES, nc)
+    order = list(range(nc))
+    rng.shuffle(order)
+    arr = sorted((rng.choice([0, 0, 0, 0.1, 0.3, 0.6, 1.1, 1.2, 1.5, 2.0, 0.7]), rng.randrange(nf),
+                  rng.choice([0.1, 0.2, 0.5, 0.7, 1.0, 0.3, 0.6, 0.9])) for _ in range(rng.randint(6, 16)))
+    return {"sched": rng.choice(["WFQ", "WFQ", "WFQ", "VC", "DRR", "SP", "WRR"]), "names": names, "order": order,
+            "w": [rng.choice(dec) for _ in range(nc)], "f2c": [i if i < nc else rng.randrange(nc) for i in range(nf)],
+            "rate": 8.0, "arr": [list(a) for a in arr]}
+
+
 def network_scenarios(ctx):
     """Network scenarios (string element ids, hubs, switches, schedulers, ports) executed twice in one interpreter process and
-    again in separate processes under other string-hash seeds: the recorded traces must be identical."""
+    again in separate processes under other string-hash seeds: the recorded traces must be identical.  The "schedfree"
+    batch leaves the exact lattice (string class ids, decimal weights): there the repetition is the whole check."""
     from . import c18, schedlib, c09
     n = 250 if ctx.quick else 3000
     batches = {
         "routing": [c18.random_scenario(ctx) for _ in range(2 * n)],
         "sched": [schedlib.random_scenario(ctx.rng, k, policy="ANY") for k in schedlib.KINDS for _ in range(n // 6 + 1)],
         "port": [c09.decorate(ctx, c09.random_workload(ctx, red=(i % 3 == 0))) for i in range(n)],
+        "schedfree": [free_scenario(ctx) for _ in range(40 * n)],
     }
     for i, sc in enumerate(batches["port"]):
         if sc["cfg"]["red"] and i % 2 == 0:
@@ -53,7 +75,7 @@ def network_scenarios(ctx):
             if ref[i] != ref[len(scs) + i]:
                 ctx.violation("rerun", {"driver": driver, "scenario": sc}, {"first": ref[i], "second": ref[len(scs) + i]},
                               "two executions of one %s scenario in the same interpreter process differ" % driver, sig="rerun " + driver)
-        for hs in ("1", "4242"):
+        for hs in ("1", "4242") + (("4", "5", "77") if driver == "schedfree" else ()):
             out = ctx.drive(driver, scs, procs=8, hashseed=hs)
             for i, sc in enumerate(scs):
                 if out[i] != ref[i]:
@@ -63,8 +85,25 @@ def network_scenarios(ctx):
         ctx.traces += 2 * len(scs)
 
 
+def replay_network(ctx, obj):
+    sc = obj["scenario"]
+    seeds = ["0", str(sc.get("hashseed", "1")), "4", "5"]
+    outs = [ctx.drive(sc["driver"], [sc["scenario"], sc["scenario"]], procs=1, hashseed=h) for h in seeds]
+    if outs[0][0] != outs[0][1]:
+        ctx.violation("rerun", sc, {"first": outs[0][0], "second": outs[0][1]}, "two executions in one interpreter process differ")
+    for h, o in zip(seeds[1:], outs[1:]):
+        if o[0] != outs[0][0]:
+            ctx.violation("hashseed", sc, {"seed0": outs[0][0], "other": o[0]},
+                          "%s trace under PYTHONHASHSEED=%s differs from the trace under 0" % (sc["driver"], h))
+    ctx.traces += 2 * len(seeds)
+    return ctx.finish("replay of one stored network scenario under hash seeds " + ", ".join(seeds))
+
+
 def run(ctx, replay=None):
     if replay:
+        obj = json.load(open(replay))
+        if isinstance(obj.get("scenario"), dict) and "driver" in obj["scenario"]:
+            return replay_network(ctx, obj)
         return kernlib.replay(ctx, replay)
     if ctx.quick:
         kernlib.mc_replay(ctx, "KernelMC_c03.cfg")
